@@ -1,6 +1,7 @@
 import JrpcVerif.Theorems.C15
 import JrpcVerif.Theorems.C15Codes
 import JrpcVerif.Theorems.C15Wire
+import JrpcVerif.Theorems.TextCore
 #print axioms Jrpc.Gen.c15_translator_ok
 #print axioms Jrpc.Gen.c15_code_rt_int
 #print axioms Jrpc.Gen.c15_code_rt_named
@@ -24,3 +25,9 @@ import JrpcVerif.Theorems.C15Wire
 #print axioms Jrpc.stable_encodeInt
 #print axioms Jrpc.stable_object
 #print axioms Jrpc.decodeI32_encodeInt
+#print axioms Jrpc.c15_error_rt
+#print axioms Jrpc.text_slice_stable
+#print axioms Jrpc.text_doc_stable
+#print axioms Jrpc.text_elements_stable
+#print axioms Jrpc.text_members_stable
+#print axioms Jrpc.text_fuel_independent
